@@ -273,6 +273,38 @@ def run_setup_chain(acc, c):
             if ids[3] in outputs and ids[3] not in ent:
                 acc.violation(V("composed_wrong_nodes", f"output node n3 was not executed; entered {sorted(ent)}"), case, (), res.trace, src)
             acc.mark_nontrivial(("setup_chain", ran_before, repr(inputs), repr(outputs)))
+    # a compose() that is REFUSED (a setup node would depend on an input of the composed DAG) leaves the original untouched: its first
+    # call / setup() afterwards behaves as if nothing had been attempted
+    from ..monitors import View, mon_c02, mon_c03
+    for inputs in ([ids[0]], [ids[1]], [ids[0], p.param_id(0)]):
+        for first in ("call", "setup_then_call"):
+            d, ns = build_gprog(p)
+            acc.evaluations += 1
+            try:
+                d.compose("bad", inputs, [ids[3]])
+                refused = False
+            except BaseException:  # noqa: BLE001
+                refused = True
+            if first == "setup_then_call":
+                H.run_controlled(lambda: d.setup())
+            res = H.run_controlled(lambda: d("ox"))
+            case = dict(c, refused_compose_inputs=[str(x) for x in inputs], first=first, refused=refused)
+            pre = None
+            if first == "setup_then_call":
+                pre = {0: res.value[0].serial, 1: res.value[1].serial} if res.outcome == "return" and all(hasattr(x, "serial") for x in res.value[:2]) else None
+            if res.outcome != "return":
+                acc.violation(V("original_broken_by_compose", f"compose({inputs}) was {'refused' if refused else 'accepted'}; the original's next call then gave {res.outcome} {res.exc!r}"),
+                              case, (), res.trace, src)
+                continue
+            if first == "call":
+                v = View(p, res, None, None, False, ("ox",))
+                for m in (mon_c02, mon_c03):
+                    for viol in m(v):
+                        acc.violation(dict(viol, kind="original_broken_by_compose", msg=f"after a {'refused' if refused else 'successful'} compose({inputs}) the original's first call: " + viol["msg"]),
+                                      case, (), res.trace, src)
+            elif any(not hasattr(x, "serial") for x in res.value):
+                acc.violation(V("original_broken_by_compose", f"after compose({inputs}) and setup() the original returns {res.value!r}"), case, (), res.trace, src)
+            acc.mark_nontrivial(("refused_compose", repr(inputs), first, refused))
     acc.states += 9
     acc.transitions += 9
 
